@@ -2,7 +2,10 @@ module verifharness
 
 go 1.21
 
-require github.com/ryogrid/SamehadaDB/lib v0.0.0
+require (
+	github.com/anishathalye/porcupine v1.3.0
+	github.com/ryogrid/SamehadaDB/lib v0.0.0
+)
 
 require (
 	github.com/cznic/mathutil v0.0.0-20181122101859-297441e03548 // indirect
